@@ -70,9 +70,49 @@ func (c *Ctx) isUnbindAtom() eqAtom {
 func (c *Ctx) isStartTLSAtom() eqAtom {
 	st := c.startTLSConst()
 	return func(v ssa.Value) (bool, bool) {
+		// membership of the request's extended name in a constant set whose only member is StartTLS:
+		// `serialOps[r.extendedName]` with a package-level map[...]bool{StartTLS: true}
+		if lk, ok := v.(*ssa.Lookup); ok && !lk.CommaOk {
+			if _, isName := fieldLoad(lk.Index, G, "Request", "extendedName"); isName {
+				if tab, okTab := an.GlobalMapTable(lk.X); okTab && len(tab.Entries) == 1 {
+					k, okK := an.StrConst(tab.Entries[0].Key)
+					val, okV := an.BoolConst(tab.Entries[0].Val)
+					if okK && okV && val && k == st {
+						return true, false
+					}
+				}
+			}
+		}
 		s, neq, ok := fieldCmpConst(v, G, "Request", "extendedName")
 		return ok && s == st, neq
 	}
+}
+
+// unbindHandlerGetter: f returns nil exactly when m.unbindRoute is nil and
+// m.unbindRoute.handler() otherwise.
+func unbindHandlerGetter(f *ssa.Function) bool {
+	rets := an.Returns(f)
+	if len(rets) == 0 || f.Signature.Results().Len() != 1 {
+		return false
+	}
+	isRoute := func(x ssa.Value) bool { _, ok := fieldLoad(x, G, "Mux", "unbindRoute"); return ok }
+	sawHandler := false
+	for _, ret := range rets {
+		res := an.Strip(an.ReturnResults(ret)[0])
+		switch {
+		case an.IsNilConst(res):
+			if !nilFact(ret.Block(), true, isRoute) {
+				return false
+			}
+		default:
+			call, ok := res.(*ssa.Call)
+			if !ok || !call.Common().IsInvoke() || call.Common().Method.Name() != "handler" || !isRoute(call.Common().Value) || !nilFact(ret.Block(), false, isRoute) {
+				return false
+			}
+			sawHandler = true
+		}
+	}
+	return sawHandler
 }
 
 // ------------------------------------------------------------------ C06
@@ -417,8 +457,10 @@ func checkC10(c *Ctx) {
 	}
 	R.Floor("C10-first", 2)
 	// ---- C10-terminal
-	bad := or(isInstr(m.readReq), callPred(isMuxServe), func(in ssa.Instruction) bool { _, ok := in.(*ssa.Go); return ok }, inBlock(m.loopHead))
-	if w := an.Search(an.Point{B: ubSucc, I: 0}, bad, nil); w != nil {
+	// (path-sensitive: a loop that ends through a flag set on the unbind branch - `for !unbound` - passes the loop
+	// head once more, to leave)
+	bad := or(isInstr(m.readReq), callPred(isMuxServe), func(in ssa.Instruction) bool { _, ok := in.(*ssa.Go); return ok }, callPred(func(cc *ssa.CallCommon) bool { return an.CalleeIs(cc, G, "newResponseWriter") }))
+	if w := an.SearchCorr(an.Point{B: ubSucc, I: 0}, bad, nil, nil); w != nil {
 		R.Fail("C10-terminal", "(*conn).serveRequests: after unbind nothing is served", c.pos(g.If), "after an Unbind the loop can continue to read / dispatch: "+c.trail(w))
 	} else {
 		R.OK("C10-terminal", "(*conn).serveRequests: after unbind nothing is served", c.pos(g.If), "from the unbind edge every path returns from serveRequests without readRequest, router.serve, go or the loop back edge")
@@ -475,6 +517,20 @@ func checkC10(c *Ctx) {
 		_, ok = fieldLoad(x, G, "Mux", "unbindRoute")
 		return ok
 	})
+	// the handler value may come from a getter of the mux that returns unbindRoute.handler(), or nil when no unbind
+	// route is registered; the nil test is then made on the getter's result
+	viaGetter := false
+	if len(hcalls) == 1 && len(nilIfs) == 0 {
+		if gc, ok := an.Strip(hcalls[0].Common().Value).(*ssa.Call); ok {
+			if gf := an.StaticCallee(gc.Common()); gf != nil && an.InModule(gf) && unbindHandlerGetter(gf) {
+				nilIfs = ifsOn(hFn, func(v ssa.Value) bool {
+					x, _, ok := an.NilCheck(v)
+					return ok && an.Strip(x) == ssa.Value(gc)
+				})
+				viaGetter = len(nilIfs) == 1
+			}
+		}
+	}
 	switch {
 	case len(hcalls) != 1 || len(nilIfs) != 1:
 		R.Fail("C10-handler-once", "(*conn).serveRequests: unbind handler once", c.pos(g.If), sprintf("expected one handler call guarded by one `unbindRoute != nil` test after the unbind edge; found %d calls, %d tests", len(hcalls), len(nilIfs)))
@@ -486,7 +542,9 @@ func checkC10(c *Ctx) {
 		ok := isCall(h)
 		// handler value = unbindRoute.handler()
 		hv, isCallV := an.Strip(h.Common().Value).(*ssa.Call)
-		if !isCallV || !hv.Common().IsInvoke() || hv.Common().Method.Name() != "handler" {
+		if viaGetter {
+			// established above: the getter yields unbindRoute.handler() exactly when a route is registered
+		} else if !isCallV || !hv.Common().IsInvoke() || hv.Common().Method.Name() != "handler" {
 			ok = false
 		} else if _, okf := fieldLoad(hv.Common().Value, G, "Mux", "unbindRoute"); !okf {
 			ok = false
@@ -498,7 +556,7 @@ func checkC10(c *Ctx) {
 		if an.Search(an.Point{B: nonNil, I: 0}, an.IsReturn, isInstr(h)) != nil {
 			ok = false
 		}
-		if an.Search(an.After(h), isInstr(h), nil) != nil {
+		if an.SearchCorr(an.After(h), isInstr(h), nil, nil) != nil {
 			ok = false
 		}
 		args := h.Common().Args
@@ -509,7 +567,7 @@ func checkC10(c *Ctx) {
 	}
 	// ---- C10-silent
 	wr := callPred(func(cc *ssa.CallCommon) bool { return an.CalleeIs(cc, G, "(*ResponseWriter).Write") })
-	if w := an.Search(an.Point{B: ubSucc, I: 0}, wr, nil); w != nil {
+	if w := an.SearchCorr(an.Point{B: ubSucc, I: 0}, wr, nil, nil); w != nil {
 		R.Fail("C10-silent", "(*conn).serveRequests: no response to unbind", c.pos(g.If), "gldap itself writes a response on the unbind path: "+c.trail(w))
 	} else {
 		R.OK("C10-silent", "(*conn).serveRequests: no response to unbind", c.pos(g.If), "no ResponseWriter.Write by gldap on the unbind path")
@@ -562,12 +620,18 @@ func checkC13(c *Ctx) {
 	// the extendedName tested is that of the request just read and newRequest sets it from the message name
 	for _, g := range ifsOnEq(m.serve, isTLS) {
 		v, _ := an.Not(g.If.Cond)
-		bo := v.(*ssa.BinOp)
 		var base ssa.Value
-		if b, ok := fieldLoad(bo.X, G, "Request", "extendedName"); ok {
-			base = b
-		} else if b, ok := fieldLoad(bo.Y, G, "Request", "extendedName"); ok {
-			base = b
+		var operands []ssa.Value
+		switch x := v.(type) {
+		case *ssa.BinOp:
+			operands = []ssa.Value{x.X, x.Y}
+		case *ssa.Lookup:
+			operands = []ssa.Value{x.Index}
+		}
+		for _, o := range operands {
+			if b, ok := fieldLoad(o, G, "Request", "extendedName"); ok {
+				base = b
+			}
 		}
 		R.Check(base != nil && isThisRequest(an.StripX(base), m), "C13-inline", "(*conn).serveRequests: StartTLS test on the request just read", c.pos(g.If), "r is this iteration's request", "StartTLS test looks at another request")
 	}
